@@ -60,13 +60,19 @@ class Geometry2d:
             self.traces = list(setup_param)
 
 
+def check_range_length(data, offset, length):
+    if len(data) != length:
+        raise EOFError(f"Requested {length} bytes at offset {offset} but received {len(data)}")
+    return data
+
+
 def read_range_file(file, offset, length):
     file.seek(offset)
-    return file.read(length)
+    return check_range_length(file.read(length), offset, length)
 
 
 def read_range_blob(file, offset, length):
-    return file.download_blob(offset=offset, length=length).readall()
+    return check_range_length(file.download_blob(offset=offset, length=length).readall(), offset, length)
 
 
 def generate_fake_seismic(n_ilines, n_xlines, n_samples, min_iline=0, min_xline=0):
